@@ -1,15 +1,15 @@
 CONSTANTS
-  NArb = 3
+  NArb = 2
   Thr = {t1}
-  PreCreated = 3
-  Kinds = {"spawn", "spawn_fn"}
-  TaskStop = FALSE
+  PreCreated = 1
+  Kinds = {"spawn"}
+  TaskStop = TRUE
   AtomicCalls = TRUE
   EagerJoin = TRUE
-  MaxCmds = 4
-  MaxSys = 1
-  Codes = {0}
-  AllowBusy = TRUE
+  MaxCmds = 3
+  MaxSys = 2
+  Codes = {0, 7}
+  AllowBusy = FALSE
   FifoLocalQueue = TRUE
   StopEndsLoop = TRUE
   FirstCodeKept = TRUE
@@ -17,7 +17,7 @@ CONSTANTS
   RunOnArbiterThread = TRUE
   StopBeforeCode = TRUE
   DeregOwnId = TRUE
-  RegBeforeReady = TRUE
+  RegBeforeReady = FALSE
   ExecuteOnce = TRUE
   SendFailsWhenGone = TRUE
   JoinWaitsExit = TRUE
@@ -26,5 +26,5 @@ CONSTANTS
 SPECIFICATION Spec
 VIEW View
 SYMMETRY ThrSym
-INVARIANTS TypeOK C10_StartOrderRespectsSendOrder C10_AtMostOnce C10_OnOwnThread C10_NothingAfterStop C10_SpawnFalseWhenGone C10_JoinAfterLoopEnd C10_BlockOnOutput
+INVARIANTS C09_FirstCodeWins C09_AllRegisteredStop C09_RunErrOnNonZero C09_EarlyStoppedDeregistered
 CHECK_DEADLOCK FALSE
